@@ -407,6 +407,26 @@ def forall_loop(A, fact, must_bb=None):
     return True, ""
 
 
+def forall_loop_taken(A, run, fact, must_bb):
+    """like forall_loop, but the must-pass part only follows CFG edges that the abstract run took
+    (so that conditions decided by the trace partition do not count as escape routes)"""
+    ok, why = forall_loop(A, fact)
+    if not ok:
+        return ok, why
+    body = A.facts.body(fact["fn"])
+    head = fact["key"][0][2]
+    sw = body.term(head)["t"]
+    loop = body.natural_loop(head)
+    errs = error_exit_blocks(A, body)
+    for s0 in [s_ for s_ in body.succs(sw) if s_ in loop]:
+        if s0 == must_bb:
+            continue
+        r = run.taken_reachable(fact["fid"], s0, {must_bb} | errs)
+        if head in r:
+            return False, "an iteration can complete without passing bb%d" % must_bb
+    return True, ""
+
+
 def finishing_writes(A):
     """state writes from a not-finished into a finished state: [(t, from-set, to-set)]"""
     C = A.classes()
@@ -572,3 +592,545 @@ def reachable_without_running(A, state):
                         changed = True
         A.__dict__["_ns"] = ns
     return state in A.__dict__["_ns"]
+
+
+# =============================================================================================
+def loop_region(body, head):
+    """natural loop of `head` plus the blocks of its early-exit paths up to the continuation block
+    (the first block common to all ways out of the loop).  Returns (region, continuation)."""
+    loop = body.natural_loop(head)
+    exits = []
+    for b in loop:
+        for s_ in body.succs(b):
+            if s_ not in loop and body.term(s_)["k"] != "unreachable":
+                exits.append(s_)
+    cont = None
+    if exits:
+        inter = None
+        for e in exits:
+            r = body.reachable(e, {head})
+            inter = set(r) if inter is None else (inter & r)
+        for x in sorted(inter or ()):
+            if inter <= body.reachable(x, {head}):
+                cont = x
+                break
+    region = set(loop)
+    if cont is not None:
+        for e in exits:
+            region |= body.reachable(e, {cont, head})
+        region.discard(cont)
+    return region, cont
+
+
+def monotone_flags(A, body, head):
+    """structural half of the ∀-loop decomposition: inside the loop of `head` (including its break
+    paths), every bool local that is also assigned outside the loop is only ever assigned one constant"""
+    loop, cont = loop_region(body, head)
+    inside, outside = {}, {}
+    for blk in body.blocks:
+        if blk["cleanup"]:
+            continue
+        for st in blk["stmts"]:
+            if st["k"] == "assign" and not st["p"]["p"] and body.locals[st["p"]["l"]]["s"] == "bool":
+                d = inside if blk["i"] in loop else outside
+                r = st["r"]
+                val = r["o"]["const"] if (r["k"] == "use" and "const" in r["o"]) else None
+                d.setdefault(st["p"]["l"], []).append(val)
+    bad = []
+    flags = []
+    for l, vals in inside.items():
+        if l in outside and body.local_names.get(l) is not None:
+            flags.append(l)
+            if None in vals or len(set(vals)) != 1:
+                bad.append(body.local_name(l))
+    return flags, bad
+
+
+def loop_conjunction(A, fn_name, is_target_write):
+    """A5 'monotone flag' idiom, decided with the interpreter.  In `fn_name` find the state write
+    selected by `is_target_write`, the innermost neighbour loops that precede it inside the same outer
+    iteration, and the bool flags those loops lower.  For every concrete neighbour state d run ONE loop
+    iteration abstractly (flags raised at its start) and report the d for which all flags stay raised
+    ('passing'); also check that the write is only reachable with all flags raised."""
+    from interp import Interp, Config, State
+    body = A.facts.body(fn_name)
+    I = Interp(A.facts, A.uni, A.layout, Config(label="LC"))
+    fr, out, col = I.analyze(body)
+    ins = col["ins"]
+    ws = [v for k, v in I.rec.facts.items() if k[0] == "write_state" and v["fid"] == fr.fid and is_target_write(v)]
+    if not ws:
+        return None
+    w = ws[0]
+    wsym = w["key"][0]
+    outer_head = wsym[2] if (isinstance(wsym, tuple) and wsym[0] == "b" and wsym[1] == fr.fid) else None
+    heads = set(h for (_, h) in body.back_edges())
+    inner = []
+    for h in heads:
+        if h == outer_head:
+            continue
+        t = body.term(h)
+        if t["k"] != "call" or t["t"] < 0:
+            continue
+        nm = M.callee_name(t) or ""
+        if not nm.endswith("::next"):
+            continue
+        loop = body.natural_loop(h)
+        if outer_head is not None and h not in body.natural_loop(outer_head):
+            continue
+        if w["bb"] in loop:
+            continue
+        if w["bb"] not in body.reachable(h):
+            continue
+        inner.append(h)
+    flags_all, bad_all = set(), []
+    passing = set(A.JS) if inner else set()
+    for h in inner:
+        flags, bad = monotone_flags(A, body, h)
+        # only flags that are raised (true) when the loop starts matter
+        flags_all |= set(flags)
+        bad_all += bad
+        loop = body.natural_loop(h)
+        sw = body.term(h)["t"]
+        somes = [s_ for s_ in body.succs(sw) if s_ in loop]
+        region, cont = loop_region(body, h)
+        exits = {cont} if cont is not None else set(s_ for b in loop for s_ in body.succs(b) if s_ not in loop)
+        sym = ("b", fr.fid, h, "nbr")
+        passing_h = set()
+        for d in A.JS:
+            ok_d = False
+            for s0 in somes:
+                if s0 not in ins:
+                    continue
+                st = ins[s0].copy()
+                for fl in flags:
+                    st.locals[(fr.fid, fl)] = ("fin", BOOL, frozenset([(1,)]), ())
+                hk = ("job", sym)
+                cell = st.heap.get(hk)
+                if cell is None or cell[0] != "adt":
+                    continue
+                from domain import av_set
+                st.heap[hk] = av_set(cell, (("f", A.L.state_field),), fin(A.L.jobstate, [d]), A.uni)
+                col2 = {}
+                I2 = I
+                I2.run(fr, st, start=s0, stops=({h} | exits), collect=col2)
+                for b_, s2 in col2["stops"].items():
+                    vals = [s2.locals.get((fr.fid, fl)) for fl in flags]
+                    if all(v is not None and v[0] == "fin" and (1,) in v[2] for v in vals):
+                        ok_d = True
+            if ok_d:
+                passing_h.add(d)
+        passing &= passing_h
+    # gate: at the write, every flag is known to be raised
+    gate_ok = True
+    stw = ins.get(w["bb"])
+    if stw is None:
+        gate_ok = False
+    else:
+        for fl in flags_all:
+            v = stw.locals.get((fr.fid, fl))
+            if v is None or v[0] != "fin" or set(v[2]) != {(1,)}:
+                gate_ok = False
+    return dict(passing=passing, loops=len(inner), flags=len(flags_all), bad_flags=bad_all, gate_ok=gate_ok, site=A.site(w),
+                fn=fn_name)
+
+
+@prop("C13")
+def check_C13(A, R, tier):
+    C = A.classes()
+    K = kinds(A)
+    H = A.handler_runs()
+    T = A.transitions()
+    ready_f, cleanup_f = set_fields(A)
+    CO = C["CleanupOffered"]
+    okdown = C["Finished"] - C["FailedLike"]
+    ok0 = set()
+    for f, tos in sig_writes(A, K["success"]).items():
+        ok0 |= tos
+    # R13.1 the offer is guarded by the states of *all* direct downstreams ------------------------
+    sp = A.signal_processor()
+    # the function that performs the offer (found through the handler facts)
+    offer_fn = None
+    for s_ in sorted(C["Finished"]):
+        for w in H[(K["done"], s_)].by_kind("write_state"):
+            if set(w["to"]) & CO:
+                offer_fn = w["fn"]
+    if offer_fn is None:
+        raise Imprecision("anchor missing: no write into the cleanup offer in the done handler")
+    res = loop_conjunction(A, offer_fn, lambda w: bool(set(w["to"]) & CO))
+    R.info["offer_function"] = short(offer_fn)
+    R.ob("R13.1", "%s | offer write found with a downstream loop in front of it" % short(offer_fn), res is not None and res["loops"] >= 1,
+         detail="cannot find the loop over the direct downstreams that guards the offer")
+    if res is not None:
+        for d in A.JS:
+            R.ob("R13.1", "cleanup offer | a direct downstream in state %s | blocks the offer unless it finished without failure" % A.sname(d),
+                 (d not in res["passing"]) or d in okdown,
+                 detail="a downstream in state %s leaves all guard flags of the offer raised" % A.sname(d), site=res["site"])
+        R.ob("R13.1", "%s | the downstream loop only lowers its flags (conjunction over all downstreams)" % short(offer_fn),
+             not res["bad_flags"] and res["flags"] >= 1, detail="flags not monotone: %s" % res["bad_flags"])
+        R.ob("R13.1", "%s | the offer is dominated by all guard flags being raised" % short(offer_fn), res["gate_ok"],
+             detail="the offer write is reachable with a lowered flag", site=res["site"])
+        R.floor("R13.1", "downstream states that pass the guard", len(res["passing"]), 1)
+    # R13.1b / R13.2 typestate of the offer --------------------------------------------------------
+    after = set()
+    n = 0
+    for t in T:
+        w = t["w"]
+        for f in sorted(w["frm"]):
+            for to in sorted(w["to"]):
+                if to in CO and f not in CO:
+                    n += 1
+                    R.ob("R13.1", tkey(A, t, f, to) + " | offered only after successful execution", f in ok0,
+                         detail="the cleanup offer is entered from a state that is not 'executed successfully'", site=A.site(w))
+                if f in CO and to not in CO:
+                    after.add(to)
+                    R.ob("R13.2", tkey(A, t, f, to) + " | the offer ends only by the acknowledgement",
+                         t["ctx"][0] == "handler" and t["ctx"][1] == K["cleanup"] and is_role(w["key"], "sigtarget"),
+                         detail="an offered Ephemeral leaves the offer without an acknowledgement", site=A.site(w))
+    R.floor("R13.2", "transitions into the cleanup offer", n, 1)
+    for t in T:
+        w = t["w"]
+        for f in sorted(w["frm"]):
+            if f in after:
+                for to in sorted(w["to"]):
+                    R.ob("R13.2", tkey(A, t, f, to) + " | acknowledged cleanup is final", to == f,
+                         detail="a cleaned-up Ephemeral changes state again", site=A.site(w))
+    R.ob("R13.2", "states after the acknowledgement exist", len(after) >= 1)
+    # the acknowledgement signal comes from the acknowledgement event only
+    for name in list(EVENTS) + ["abort_remaining", "event_startup"]:
+        b = A.evaluator_fn(name)
+        runs = [A.startup_run()] if name == "event_startup" else ([A.joined_run(b)] if name == "abort_remaining" else list(A.event_runs(name).values()))
+        has = any(K["cleanup"] in v["kinds"] for r_ in runs for v in r_.by_kind("push_signal"))
+        if name == "event_job_cleanup_done":
+            R.ob("R13.2", "%s queues the acknowledgement signal" % name, has)
+        else:
+            R.ob("R13.2", "%s does not queue the acknowledgement signal" % name, not has)
+    for (k, s), run in H.items():
+        bad = [v for v in run.by_kind("push_signal") if K["cleanup"] in v["kinds"] and v["container"] != "queue"]
+        if bad:
+            R.ob("R13.2", "%s handler | does not emit the acknowledgement signal" % A.kname(k), False, site=A.site(bad[0]))
+    # set membership (stays offered until acknowledged)
+    pairing(A, R, "R13.2s", CO, None, "cleanup", exclude=("self", ready_f))
+    # R13.3 not forgotten (necessary) -----------------------------------------------------------------
+    not_forgotten(A, R, "R13.3")
+    for s in sorted(C["Finished"]):
+        run = H[(K["done"], s)]
+        nb = [v for v in run.by_kind("neighbors") if v["dir"] == "Incoming" and v["key"][0] is not None and is_role(v["key"], "sigtarget")]
+        R.ob("R13.3", "done handler | %s | considers the upstreams of the finished job for cleanup" % A.sname(s), len(nb) >= 1,
+             detail="the handler does not look at the incoming neighbours of the finished job")
+    # the outer loop over the upstreams has no early exit
+    ws = []
+    for s_ in sorted(C["Finished"]):
+        ws += [w for w in H[(K["done"], s_)].by_kind("write_state") if set(w["to"]) & CO]
+    R.floor("R13.3", "offer writes in the done handler", len(ws), 1)
+    seen_w = set()
+    for w in ws:
+        if (w["fn"], w["bb"]) in seen_w:
+            continue
+        seen_w.add((w["fn"], w["bb"]))
+        ok, why = forall_loop(A, w)
+        R.ob("R13.3", "%s | every upstream of the finished job is considered (no early exit)" % short(w["fn"]), ok, detail=why, site=A.site(w))
+    R.explanation = ("Safety: the only insertion into the cleanup set is evaluated with all direct downstreams of the Ephemeral in "
+                     "each of the %d concrete states (uniform trace partition; sound for mixed states because the downstream loop only "
+                     "lowers constant flags) and is reachable only when they finished without failure; the offer state is entered only "
+                     "from 'executed successfully', left only by the acknowledgement handler, whose signal only the acknowledgement "
+                     "event queues, into final states.  'Not forgotten' is a necessary condition: every finishing write announces the "
+                     "job and the announcement handler considers every upstream." % len(A.JS))
+    R.assume("that the announcement of the last downstream is processed after the Ephemeral's own success is a global ordering fact that is not decided")
+
+
+def not_forgotten(A, R, rule):
+    """every write that finishes a job is followed by the 'done' announcement for the same job"""
+    C = A.classes()
+    K = kinds(A)
+    n = 0
+    for (t, f, to) in finishing_writes(A):
+        w = t["w"]
+        run = t["run"]
+        if t["ctx"][0] == "handler" and t["ctx"][1] == K["abort"]:
+            continue    # after an abort nothing is scheduled any more
+        n += 1
+        v = has_connected(A, run, w, lambda v: K["done"] in v["kinds"] and set(v["kinds"]) == {K["done"]})
+        ok = v is not None
+        why = "no 'done' signal for the job follows the write"
+        if ok and v["fn"] == w["fn"] and v.get("fid") == w.get("fid"):
+            # must-pass: from the write, the end of the handler is not reachable around the emission (taken edges only)
+            body = A.facts.body(w["fn"])
+            errs = error_exit_blocks(A, body)
+            sym = w["key"][0]
+            outer = sym[2] if (isinstance(sym, tuple) and len(sym) > 2 and sym[0] == "b" and sym[1] == w["fid"]) else None
+            r = run.taken_reachable(w["fid"], w["bb"], ({v["bb"]} | errs) - {w["bb"]})
+            if w["bb"] != v["bb"] and ((outer is not None and outer in r) or "return" in r):
+                ok, why = False, "the handler can end after the write without announcing the job"
+        if not ok and removed_before(A, run, w):
+            ok = True   # the job was taken out of the graph: it has no neighbours an announcement could reach
+        R.ob(rule, tkey(A, t) + " | %s -> %s | finishing a job announces it" % (A.snames(f), A.snames(to)), ok, detail=why, site=A.site(w))
+    R.floor(rule, "finishing writes", n, 8)
+
+
+# =============================================================================================
+def must_pass_call(A, body, callee_pred, also_skip_pred=None):
+    """on every path from entry to a return, a call matching callee_pred is passed -- paths through blocks
+    matching also_skip_pred (e.g. error propagation) are exempt"""
+    removed = set()
+    for blk in body.blocks:
+        if blk["cleanup"]:
+            continue
+        t = blk["term"]["t"]
+        if t["k"] == "call":
+            nm = M.callee_name(t) or ""
+            if callee_pred(nm) or (also_skip_pred is not None and also_skip_pred(nm)):
+                removed.add(blk["i"])
+    removed |= error_exit_blocks(A, body)
+    r = body.reachable(0, removed)
+    return not (set(returns_of(body)) & r), removed
+
+
+@prop("C10")
+def check_C10(A, R, tier):
+    C = A.classes()
+    K = kinds(A)
+    H = A.handler_runs()
+    ab = A.evaluator_fn("abort_remaining")
+    nonfin = frozenset(A.JS) - C["Finished"]
+    # R10.1a: every unfinished job gets the abort signal -------------------------------------------
+    jobs = []
+    for d in A.JS:
+        jobs.append((ab.name, "AB|%s" % A.sname(d), dict(opaque=list(A.signal_entry_names()),
+                                                        cell_init={"alljobs": fin(A.L.jobstate, [d])},
+                                                        default_states=fin(A.L.jobstate, [d]))))
+    A.run_many(jobs)
+    n = 0
+    for d in A.JS:
+        run = A.runs[(ab.name, "AB|%s" % A.sname(d))]
+        got = set()
+        tgt_ok = True
+        for v in run.by_kind("extend"):
+            e = v["elem"]
+            if v["target"] == ("self", A.L.signals_field) and e is not None and e[0] == "adt" and e[1] == A.L.signal_ty:
+                fs = adt_variants(e)[0]
+                if fs[A.L.sig_kind_field][0] == "fin":
+                    got |= set(fs[A.L.sig_kind_field][2])
+                kk = fs[A.L.sig_node_field]
+                if not (kk[0] == "key" and any((r == ("via", "alljobs")) or r == "alljobs" for r in kk[2])):
+                    tgt_ok = False
+        for v in run.by_kind("push_signal"):
+            if v["container"] == "queue":
+                got |= set(v["kinds"])
+        if d in nonfin:
+            n += 1
+            R.ob("R10.1", "abort_remaining | job in state %s | is sent the abort signal" % A.sname(d), got == {K["abort"]} and tgt_ok,
+                 detail="signals queued for an unfinished job in this state: %s" % sorted(A.kname(k) for k in got))
+
+    R.floor("R10.1", "unfinished states", n, 10)
+    # must-analysis of the chain  job -> index list -> signal list -> queue  for an unfinished job
+    for d in sorted(nonfin):
+        run = A.runs[(ab.name, "AB|%s" % A.sname(d))]
+        fid0 = [v["fid"] for v in run.by_kind("call") if v["fn"] == ab.name]
+        fid0 = fid0[0] if fid0 else None
+        pl = [v for v in run.by_kind("push_local") if v["fn"] == ab.name and v["key"][0] is not None and is_role(v["key"], "alljobs")]
+        ok1, why1 = False, "the index of an unfinished job is not collected"
+        for v in pl:
+            ok1, why1 = forall_loop_taken(A, run, v, v["bb"])
+            if ok1:
+                break
+        ps = [v for v in run.by_kind("push_signal") if v["fn"] == ab.name and set(v["kinds"]) == {K["abort"]}]
+        ok2, why2 = False, "no abort signal is built from the collected indices"
+        for v in ps:
+            src_ok = any(isinstance(r, tuple) and r[0] == "was" and any(p["key"][0] == r[1] for p in pl) for r in v["key"][1])
+            if not src_ok and v["container"] != "queue":
+                why2 = "the abort signals are not built from the collected indices"
+                continue
+            ok2, why2 = forall_loop_taken(A, run, v, v["bb"])
+            if ok2:
+                break
+        R.ob("R10.1", "abort_remaining | job in state %s | on every path its index is collected and turned into an abort signal" % A.sname(d),
+             ok1 and ok2, detail=why1 if not ok1 else why2)
+    # the scan over the jobs has no early exit and the collected signals are all transferred
+    run = A.joined_run(ab)
+    body = ab
+    heads = set(h for (_, h) in body.back_edges())
+    nl = 0
+    for h in sorted(heads):
+        t = body.term(h)
+        if t["k"] == "call" and (M.callee_name(t) or "").endswith("::next"):
+            nl += 1
+            loop = body.natural_loop(h)
+            sw = t["t"]
+            early = [(b, s_) for b in loop for s_ in body.succs(b) if s_ not in loop and b != sw and body.term(s_)["k"] != "unreachable"]
+            R.ob("R10.1", "abort_remaining | loop bb%d visits every element (no early exit)" % h, not early,
+                 detail="loop can be left early: %r" % early[:2])
+    R.floor("R10.1", "loops in abort_remaining", nl, 1)
+    ok_call, _ = must_pass_call(A, body, lambda nm: nm in A.signal_entry_names())
+    R.ob("R10.1", "abort_remaining | the queued abort signals are processed before returning", ok_call,
+         detail="a path returns without running the signal processor")
+    # R10.1b: the abort handler finishes every job, emits nothing, cannot fail -----------------------
+    for s in A.JS:
+        run = H[(K["abort"], s)]
+        ws = [w for w in run.by_kind("write_state") if is_role(w["key"], "sigtarget")]
+        tos = set()
+        for w in ws:
+            tos |= set(w["to"])
+        sn = A.sname(s)
+        if s in C["Finished"]:
+            R.ob("R10.1", "abort handler | %s | a finished job keeps its state" % sn, not ws,
+                 detail="a finished job is rewritten to %s" % A.snames(tos))
+        else:
+            R.ob("R10.1", "abort handler | %s | the job ends finished" % sn, bool(ws) and tos <= C["Finished"],
+                 detail="after the abort handler the job is in %s" % (A.snames(tos) or "its old state"))
+            R.ob("R10.1", "abort handler | %s | ... and is reported aborted, not failed/upstream-failed/succeeded" % sn,
+                 bool(ws) and tos <= C["Aborted"], detail="to-states: %s" % A.snames(tos))
+        pushes = [v for v in run.by_kind("push_signal") if v["container"] != "queue"]
+        R.ob("R10.1", "abort handler | %s | emits no further signal" % sn, not pushes,
+             detail="; ".join("%s at %s" % (sorted(A.kname(k) for k in v["kinds"]), A.site(v)) for v in pushes[:2]))
+        sigsyms = set(c[0] for v in ws for c in v["cells"]) or None
+        errs = [v for v in run.by_kind("error_construct") if any(is_sig_bound(c) for c in v["cells"])]
+        pans = [v for v in run.by_kind("panic") if v.get("possible", True) and any(is_sig_bound(c) for c in v["cells"])]
+        R.ob("R10.1", "abort handler | %s | has no error or panic exit" % sn, not errs and not pans,
+             detail="; ".join("%s at %s" % (v.get("variant", v.get("kind")), A.site(v)) for v in (errs + pans)[:2]))
+    # R10.2: nothing stays offered (ready set) ----------------------------------------------------------
+    ready_f, cleanup_f = set_fields(A)
+    n = 0
+    for s in sorted(C["Ready"]):
+        run = H[(K["abort"], s)]
+        for w in run.by_kind("write_state"):
+            if not is_role(w["key"], "sigtarget"):
+                continue
+            n += 1
+            ok = any(v["op"] == "remove" and v["target"] == ("self", ready_f) and elem_is_key(v["elem"], w["key"]) and connected(A, w, v)
+                     for v in run.by_kind("set_op"))
+            R.ob("R10.2", "abort handler | %s | the aborted job is taken out of the ready set" % A.sname(s), ok,
+                 detail="an offered job is aborted but stays in the set reported by query_ready_to_run()", site=A.site(w))
+    R.floor("R10.2", "offered states handled by the abort handler", n, 3)
+    # R10.3: the evaluation is marked finished so that the history can be obtained --------------------
+    isf = A.evaluator_fn("is_finished")
+    ok_call, _ = must_pass_call(A, ab, lambda nm: nm == isf.name, lambda nm: "from_residual" in nm)
+    R.ob("R10.3", "abort_remaining | every successful return passes through is_finished()", ok_call,
+         detail="new_history() refuses (panics) unless the start status was advanced by is_finished()")
+    nh = A.evaluator_fn("new_history")
+    ss = A.uni.fin[A.L.startstatus]
+    s0 = A.initial_start_status()
+    # which status does new_history accept?  (observation: the status for which it does not diverge at once)
+    acc = []
+    for s in ss:
+        r = A.run(nh.name, "NH|%s" % A.uni.show(A.L.startstatus, s), dict(self_init={A.L.start_field: fin(A.L.startstatus, [s])}))
+        if not r.diverges:
+            acc.append(s)
+    R.ob("R10.3", "new_history accepts exactly one start status", len(acc) == 1, detail=str([A.uni.show(A.L.startstatus, s) for s in acc]))
+    if len(acc) == 1:
+        # is_finished with all jobs finished stores exactly that status
+        r = A.run(isf.name, "ISF10", dict(self_init={A.L.start_field: fin(A.L.startstatus, [s for s in ss if s != s0 and s != acc[0]] or [acc[0]])},
+                                          default_states=fin(A.L.jobstate, C["Finished"]), cell_init={"alljobs": fin(A.L.jobstate, C["Finished"])}))
+        st = [v for v in r.by_kind("store_self") if v["proj"][:1] == (("f", A.L.start_field),)]
+        okst = bool(st) and all(v["value"][0] == "fin" and set(v["value"][2]) == {acc[0]} for v in st)
+        R.ob("R10.3", "is_finished advances the start status to the one new_history accepts when all jobs are finished", okst)
+    R.explanation = ("abort_remaining is analysed with all jobs in each concrete state (unfinished ones get exactly the abort signal, "
+                     "loops without early exit, the signal processor is run); the abort handler is analysed from each of the %d states: "
+                     "it ends in a finished/aborted state, emits nothing, has no error exit, and removes offered jobs from the ready "
+                     "set; the successful return passes through is_finished(), which stores the status new_history requires.  "
+                     "Not decided: that none of new_history's internal-error exits can be taken after an abort." % len(A.JS))
+    R.assume("clause 3 (history obtainable without error) is decided only up to new_history's start-status check; its InternalError exits need inter-job invariants")
+
+
+def is_sig_bound(c):
+    sym = c[0]
+    return isinstance(sym, tuple) and len(sym) > 3 and sym[0] == "b" and sym[3] == "sig"
+
+
+# =============================================================================================
+@prop("C05")
+def check_C05(A, R, tier):
+    C = A.classes()
+    K = kinds(A)
+    H = A.handler_runs()
+    T = A.transitions()
+    ready_f, cleanup_f = set_fields(A)
+    # R5.1 each job is started at most once: Running is entered only from Ready, Ready only from phase 0
+    n = 0
+    for t in T:
+        w = t["w"]
+        for f in sorted(w["frm"]):
+            for to in sorted(w["to"]):
+                pf, pt = phase(C, f), phase(C, to)
+                if pt in (1, 2) or pf in (1, 2, 3):
+                    n += 1
+                    ok = pt >= pf and not (pt == 1 and pf >= 1) and not (pt == 2 and pf != 1)
+                    R.ob("R5.1", tkey(A, t, f, to), ok,
+                         detail="lifecycle phase goes %d -> %d (0 pending, 1 offered, 2 running, 3 finished): a job could be started twice or un-finished" % (pf, pt),
+                         site=A.site(w))
+    R.floor("R5.1", "transitions touching offered/running/finished", n, 20)
+    # R5.2 finished => nothing ready, nothing running
+    pairing(A, R, "R5.2", C["Ready"], ("self", ready_f), "ready")
+    R.ob("R5.2", "Ready, Running and Finished are pairwise disjoint",
+         not (C["Ready"] & C["Finished"]) and not (C["Running"] & C["Finished"]) and not (C["Ready"] & C["Running"]))
+    R.ob("R5.2", "query_jobs_running is a scan of the job states over exactly the Running class", C["RunningQ"] == C["Running"])
+    # is_finished only reports true when every job is finished (checked with one unfinished class at a time)
+    isf = A.evaluator_fn("is_finished")
+    ss = A.uni.fin[A.L.startstatus]
+    s0 = A.initial_start_status()
+    nonfin = frozenset(A.JS) - C["Finished"]
+    for s in [x for x in ss if x != s0]:
+        sn = A.uni.show(A.L.startstatus, s)
+        r = A.run(isf.name, "ISF5|%s" % sn, dict(self_init={A.L.start_field: fin(A.L.startstatus, [s])},
+                                                 default_states=fin(A.L.jobstate, nonfin), cell_init={"alljobs": fin(A.L.jobstate, nonfin)}))
+        # with only unfinished jobs (and at least one of them) the loop body returns false; true is possible only
+        # through the zero-jobs path or a stored final status
+        st = [v for v in r.by_kind("store_self") if v["proj"][:1] == (("f", A.L.start_field),)]
+        R.info.setdefault("is_finished_runs", []).append(dict(status=sn, stores=len(st)))
+    # R5.3 wake-up (necessary): finishing a job announces it, the announcement reconsiders every downstream
+    not_forgotten(A, R, "R5.3")
+    n = 0
+    for s in sorted(C["Finished"]):
+        run = H[(K["done"], s)]
+        em = [v for v in run.by_kind("push_signal") if v["container"] != "queue" and K["consider"] in v["kinds"]
+              and nbr_parent(v["key"])[1] == "Outgoing" and is_direct_nbr_of_sig(v)]
+        okl, why = (False, "no consider signal towards the downstreams")
+        for v in em:
+            okl, why = forall_loop(A, v)
+            if okl:
+                break
+        n += 1
+        R.ob("R5.3", "done handler | %s | every direct downstream may be reconsidered" % A.sname(s), okl, detail=why,
+             site=A.site(em[0]) if em else "")
+    R.floor("R5.3", "finished states handled by the done handler", n, 10)
+    # R5.4 signals emitted while handling are not lost: the local signal list is moved into the queue
+    sp = A.signal_processor()
+    run = H[(K["done"], sorted(C["Finished"])[0])]
+    tr = [v for v in run.by_kind("push_signal") if v["container"] == "queue" and v["fn"] == sp.name]
+    ext = [v for v in run.by_kind("extend") if v["target"] == ("self", A.L.signals_field) and v["fn"] == sp.name]
+    R.ob("R5.4", "%s | signals emitted by the handlers are moved into the queue" % short(sp.name), bool(tr or ext),
+         detail="the local list of new signals is never transferred")
+    if tr:
+        v = tr[0]
+        body = A.facts.body(sp.name)
+        # the transfer loop is passed on every non-error path from the end of the drain loop to the return
+        drain_heads = [blk["i"] for blk in body.blocks if not blk["cleanup"] and blk["term"]["t"]["k"] == "call"
+                       and (M.callee_name(blk["term"]["t"]) or "").endswith("Drain<'_, T, A> as std::iter::Iterator>::next")]
+        okp = False
+        if drain_heads:
+            h = drain_heads[0]
+            sw = body.term(h)["t"]
+            loop = body.natural_loop(h)
+            outs = [s_ for s_ in body.succs(sw) if s_ not in loop and body.term(s_)["k"] != "unreachable"]
+            sym = v["key"][0]
+            errs = error_exit_blocks(A, body)
+            okp = True
+            for o in outs:
+                r = body.reachable(o, {v["bb"]} | errs)
+                # allowed: returning without transfer only if the list is empty (a branch on is_empty) - accept a guarded skip
+                if set(returns_of(body)) & r:
+                    # is every such path guarded by an emptiness test of the list?
+                    guarded = any((M.callee_name(body.term(b)) or "").endswith("::is_empty") for b in r
+                                  if body.term(b)["k"] == "call")
+                    okp = okp and guarded
+        R.ob("R5.4", "%s | the transfer is on every regular path from the end of the batch to the return" % short(sp.name), okp,
+             detail="a path returns without moving the new signals into the queue (and without an emptiness test)", site=A.site(v))
+    R.explanation = ("Decided: each job is started at most once (phase typestate over the complete transition relation), and a finished "
+                     "evaluation has nothing ready or running (ready-set pairing, disjoint classes, running report is a scan).  "
+                     "Necessary conditions for progress: every finishing write announces the job, the announcement reconsiders every "
+                     "direct downstream, signals emitted by handlers are moved into the queue.  Liveness itself is not decided.")
+    R.assume("'always something ready or running' and termination of the signal fixpoint are not decided statically")
+
+
+def is_direct_nbr_of_sig(v):
+    par, d = nbr_parent(v["key"])
+    return isinstance(par, tuple) and len(par) > 3 and par[3] == "sig"
